@@ -469,7 +469,7 @@ func c17Observe(lib *ast.KnowledgeLibrary, names []string, st *facts.State) (map
 }
 
 func TestC17(t *testing.T) {
-	col := stats.New("C17", "valid documents are produced by the grammar-rich printer (1-3 rules; optional single- or double-quoted descriptions with escapes and comment look-alikes; saliences incl. int32 limits in decimal/hex/octal; conditions of depth 1-3 with every operator, constants as receivers, chained selectors and calls; all assignment forms; call statements; spacing, comments, keyword case, literal notations, quoting varied) and then receive 0-3 mutations: delete / duplicate / swap / replace / insert a token (pool of keywords, brackets, operators, stray characters, `e+5`, `08`, `1.`, out-of-range integers and saliences, bad escapes, doubled quotes, unterminated strings and comments, duplicate rule) or delete / insert / replace a character or truncate. Oracle: an independent recogniser (own maximal-munch lexer written from the token rules, own backtracking parser for the parser rules, literal/escape/salience/name checks): BuildRuleFromResource returns nil exactly when the recogniser accepts; on acceptance every rule is present under its name with its raw description and salience; a syntax rejection is a GruleErrorReporter with at least one entry; no panic. The text is built into a knowledge base that already holds 0-3 good rules: after a rejection those rules must still instantiate, store+load and produce the same FetchMatchingRules membership and sinks as before (rules the builder added from the rejected text are removed from the instance before comparing). Non-trivial: a mutant whose verdict differs from its valid parent's, or an unmutated document with at least 2 rules. Distinct by text.",
+	col := stats.New("C17", "valid documents are produced by the grammar-rich printer (1-3 rules; optional single- or double-quoted descriptions with escapes and comment look-alikes; saliences incl. int32 limits in decimal/hex/octal; conditions of depth 1-3 with every operator, constants as receivers, chained selectors and calls; all assignment forms; call statements; spacing, comments, keyword case, literal notations, quoting varied) and then receive 0-3 mutations: delete / duplicate / swap / replace / insert a token (pool of keywords, brackets, operators, stray characters, `e+5`, `08`, `1.`, out-of-range integers and saliences, bad escapes, doubled quotes, unterminated strings and comments, duplicate rule) or delete / insert / replace a character or truncate. Oracle: an independent recogniser (own maximal-munch lexer written from the token rules, own backtracking parser for the parser rules, literal/escape/salience/name checks): BuildRuleFromResource returns nil exactly when the recogniser accepts; on acceptance every rule is present under its name with its raw description and salience; a syntax rejection is a GruleErrorReporter with at least one entry; no panic. The text is built into a knowledge base that already holds 0-3 good rules: after a rejection those rules must still instantiate, store+load and produce the same FetchMatchingRules membership and sinks as before (rules the builder added from the rejected text are removed from the instance before comparing). With earlier rules present, the two resources are also built by one long-lived builder with the library entry reloaded from its stored image in between. Non-trivial: a mutant whose verdict differs from its valid parent's, or an unmutated document with at least 2 rules. Distinct by text.",
 		"float literals outside the float64 range are generated only through the pool entry 1e999 (rejected by both sides)")
 	defer col.Flush()
 	stCfg := gen.StateCfg{D: gen.Small, JSON: true, Top: true}
